@@ -18,3 +18,15 @@ Definition show_verdict (v : verdict) : string :=
 Definition run_case (c : pcase) : string :=
   show_verdict (verify_case Zr (c_schema c) (c_p0 c) (c_p c) (c_derived c)).
 Definition run_all (l : list pcase) : string := unlines (map run_case l).
+
+(** ---- knox-level cases (C17): a proof of knowledge checked directly, without the presentation layer.
+    FS: the verifier's transcript contribution for (sp, c) must equal the one for the reference (sp0, 0) *)
+Record kcase := mkK { k_pk : pubkey Zr; k_sp0 : sigproof Zr; k_sp : sigproof Zr; k_c : Zr }.
+Definition run_kcase (k : kcase) : string :=
+  let fs := list_eqb zr_eqb (pok_items Zr (k_pk k) (k_sp k) (k_c k)) (pok_items Zr (k_pk k) (k_sp0 k) (z 0)) in
+  let ver := pok_verify Zr (k_pk k) (k_sp k) (k_c k) in
+  (if fs && ver then "accept" else "reject") ++ " fs=" ++ show_bool fs ++ " ver=" ++ show_bool ver ++ " hid=" ++
+  match hidden_message_proofs Zr (k_pk k) (k_sp k) with
+  | Some l => join "," (map (fun p => show_Z (Z.of_nat (fst p)) ++ ":" ++ show_scalar (zr_to_Z (snd p))) l)
+  | None => "none" end.
+Definition run_kall (l : list kcase) : string := unlines (map run_kcase l).
